@@ -406,6 +406,12 @@ static void fd_snapshot(char* out, size_t cap) {
 }
 
 static char scratch[256];
+static long run_index = -1;          /* batch: sequence number given by the parent, unique together with its pid */
+static void scratch_name(char* out, size_t cap, long idx) {
+  const char* base = getenv("C16_TMP");
+  if (idx < 0) snprintf(out, cap, "%s/r%d", base ? base : "/var/tmp", (int) getpid());
+  else snprintf(out, cap, "%s/b%d_%ld", base ? base : "/var/tmp", (int) getppid(), idx);
+}
 static void rm_rf(const char* path) {
   char cmd[600]; int r;
   quiet_depth++;
@@ -415,8 +421,7 @@ static void rm_rf(const char* path) {
 }
 
 static void prologue(void) {
-  const char* base = getenv("C16_TMP");
-  snprintf(scratch, sizeof scratch, "%s/r%d", base ? base : "/var/tmp", (int) getpid());
+  scratch_name(scratch, sizeof scratch, run_index);
   quiet_depth++; mkdir(scratch, 0700); quiet_depth--;
   fd_snapshot(fdsnap0, sizeof fdsnap0);
   atomic_store(&armed, 1);
@@ -708,6 +713,8 @@ static void fs_cb(uv_fs_t* req) { got[Q_fs]++; fs_next(req); }
 /* issue step fsx.step; returns <0 when the submission itself failed */
 static int fs_issue(uv_fs_t* rq) {
   uv_fs_cb cb = fsx.async ? fs_cb : NULL; uv_buf_t b[3]; int r = 0;
+  if (FS_OP >= 1 && (strncmp(fsx.dir, scratch, strlen(scratch)) || strlen(fsx.dir) <= strlen(scratch) + 1)) return 1;   /* never leave the scratch dir */
+  if ((FS_OP == 2 || FS_OP == 3 || FS_OP == 4 || FS_OP == 5 || FS_OP == 6 || FS_OP == 7 || FS_OP == 8 || FS_OP == 18 || FS_OP == 19) && fsx.fd < 3) return 1;
   switch (FS_OP) {
     case 0: { char tpl[300]; snprintf(tpl, sizeof tpl, "%s/dXXXXXX", scratch); r = uv_fs_mkdtemp(loop, rq, tpl, cb); break; }
     case 1: r = uv_fs_open(loop, rq, fsx.f1, O_CREAT | O_RDWR | O_TRUNC, 0600, cb); break;
@@ -773,8 +780,8 @@ static void fs_next(uv_fs_t* done) {
     done = rq;
   }
 }
-static void sc_fs_sync(void) { fsx.async = 0; fs_next(NULL); }
-static void sc_fs_async(void) { fsx.async = 1; fs_next(NULL); uv_run(loop, UV_RUN_DEFAULT); }
+static void sc_fs_sync(void) { fsx.async = 0; fsx.fd = -1; fs_next(NULL); }
+static void sc_fs_async(void) { fsx.async = 1; fsx.fd = -1; fs_next(NULL); uv_run(loop, UV_RUN_DEFAULT); }
 
 /* ================================================================== scenario: getaddrinfo / getnameinfo */
 static void gni_cb(uv_getnameinfo_t* r, int status, const char* host, const char* svc) {
@@ -1172,7 +1179,7 @@ int main(int argc, char** argv) {
   if (argc >= 3 && !strcmp(argv[1], "run")) return run_one(argc - 2, argv + 2);
   if (argc >= 2 && !strcmp(argv[1], "list")) { for (int s = 0; scenarios[s].name; s++) OUT("%s", scenarios[s].name); return 0; }
   if (argc >= 2 && !strcmp(argv[1], "batch")) {
-    char line[2048]; int tmo = argc >= 3 ? atoi(argv[2]) : 20;
+    char line[2048]; int tmo = argc >= 3 ? atoi(argv[2]) : 20; long nrun = 0;
     while (fgets(line, sizeof line, stdin)) {
       char* av[80]; int ac = 0, st = 0; pid_t pid; char* p;
       line[strcspn(line, "\n")] = 0;
@@ -1180,8 +1187,10 @@ int main(int argc, char** argv) {
       for (p = strtok(line, " "); p && ac < 79; p = strtok(NULL, " ")) av[ac++] = p;
       if (ac == 0) continue;
       if (!real_fork) real_fork = (pid_t (*)(void)) dlsym(RTLD_NEXT, "fork");
+      nrun++;
       pid = real_fork();
       if (pid == 0) {
+        run_index = nrun;
         RAW(SYS_dup3, 1, 2, 0);      /* sanitizer reports travel with the transcript */
         RAW(SYS_exit_group, run_one(ac, av));
       }
@@ -1192,6 +1201,8 @@ int main(int argc, char** argv) {
           if (waited >= tmo * 1000) { RAW(SYS_kill, pid, SIGKILL); RAW(SYS_wait4, pid, &st, 0, 0); OUT("== hang"); break; }
           { struct timespec ts = { 0, 1000000 }; RAW(SYS_nanosleep, &ts, 0); } waited++;
         } }
+      if (!(WIFEXITED(st) && WEXITSTATUS(st) <= 1)) { char d[256]; const char* base = getenv("C16_TMP");   /* died before its own cleanup */
+        snprintf(d, sizeof d, "%s/b%d_%ld", base ? base : "/var/tmp", (int) getpid(), nrun); rm_rf(d); }
       if (WIFSIGNALED(st)) OUT("== exit signal %d", WTERMSIG(st)); else OUT("== exit code %d", WEXITSTATUS(st));
     }
     return 0;
